@@ -14,7 +14,9 @@ ATOMS = ["{{", "}}", "{{{", "}}}", "[[", "]]", "[", "]", "|", "||", "!", "!!", "
          "<nowiki></nowiki>", "<nowiki></nowiki>", "<!-- c -->", "== H ==\n", "a=b", "style=\"c\"", "\"", "'",
          # blanks other than the ASCII ones, alone and inside tags (the tokenizer and the tag handler must agree on them)
          "\u00a0", "\u2003", "\u3000", "\x85", "\x1c", "\u2028", "<div\u00a0class=\"x\">", "</span\u00a0>", "<br\u2003/>", "<b\u3000>",
-         "<span class\u00a0=\u2003\"c\">", "</div\x85>", "<ref\u00a0name=a/>", "<li\x1c>", "<DIV>", "</Div >", "<BR/>"]
+         "<span class\u00a0=\u2003\"c\">", "</div\x85>", "<ref\u00a0name=a/>", "<li\x1c>", "<DIV>", "</Div >", "<BR/>",
+         # constructs whose saved arguments hold a bracket or nowiki placeholder of their own
+         "{{a|[b]}}", "[[l|x<nowiki/>y]]", "{{{1|[d]}}}", "<span title=\"{{a|[y]}}\">", "[x y]", "{{a|<nowiki/>}}", "[[a|[b]]]"]
 MAGIC = "\U00102041"
 
 
@@ -145,13 +147,22 @@ def run(run):
         texts.append(t); klass.append("corpus")
     for t in ["==<pre>x==\n", "== a <pre> b ==\ntext", "==<pre>==\n</pre>", "=== x<pre>y</pre> ===\n", "==<nowiki>x</nowiki>==\n",
               "== {{a|x}} ==\n", "==[[a]]==\n* i", "==\n", "== ==\n", "=====\n", "== {{\nfoo}} ==", "== [[a|\nb]] ==\n",
-              "<math>\n=</math>=", "<div>\n== a </div> ==\n", "<b>x\n=== t</b> ===\n"]:
+              "<math>\n=</math>=", "<div>\n== a </div> ==\n", "<b>x\n=== t</b> ===\n",
+              "{{PAGENAME|\u00b2=x}}", "{{lc:A|\u2460=y}}", "{{a|\u00b2=x}}",
+              "<pre>{{foo|[bar]}}</pre>", "<pre>[[a|b<nowiki/>c]]</pre>", "{{foo|<span title=\"{{x|[y]}}\">z</span>}}",
+              "<pre>{{{1|[d]}}} [x y]</pre>", "<nowiki>{{a|[b]}}</nowiki>", "<math>{{a|[b]}}</math>", "<ref>[[l|x<nowiki/>y]]</ref>"]:
         texts.append(t); klass.append("corpus")
     for t in ["a" + MAGIC + "b", "{{X" + MAGIC + "}}", "[[" + MAGIC + "]]", "<b>" + MAGIC, "* " + MAGIC + "\n"]:
         texts.append(t); klass.append("placeholder")
     jobs, owner = [], []
     for kw in ({}, {"pre_expand": True}, {"expand_all": True}):
-        sel = list(range(len(texts))) if not kw else [i for i in range(len(texts)) if i % 4 == 0]
+        sel = list(range(len(texts))) if not kw else [i for i in range(len(texts)) if i % 4 == 0 and klass[i] != "placeholder"]
+        if kw:
+            # inputs holding a placeholder character: each in a job of its own with a short limit (one of them does not return)
+            for i in range(len(texts)):
+                if klass[i] == "placeholder":
+                    jobs.append({"texts": [texts[i]], "kw": kw, "_timeout": 8})
+                    owner.append(([i], kw))
         for k in range(0, len(sel), 120):
             part = sel[k:k + 120]
             jobs.append({"texts": [texts[i] for i in part], "kw": kw, "_timeout": 300})
@@ -159,6 +170,11 @@ def run(run):
     res = lib.run_impl("parse_many", jobs, shards=lib.NCPU)
     coq_cases, refs = [], []
     for (part, kw), r in zip(owner, res):
+        if r.get("outcome") != "ok" and len(part) == 1 and klass[part[0]] == "placeholder":
+            run.count([klass[part[0]], texts[part[0]], kw], False, "placeholder+opts")
+            run.property_failure("c01:does-not-return:placeholder-in-input", "parse(%r, %r) did not return within 8 s (%s)"
+                                 % (texts[part[0]], kw, r.get("outcome")), {"text": texts[part[0]], "kw": kw})
+            continue
         if r.get("outcome") != "ok":
             run.property_failure("c01:batch:%s" % r.get("outcome"), "parse batch did not finish (%r): first text %r"
                                  % (r.get("outcome"), texts[part[0]][:200]), {"text": texts[part[0]], "kw": kw})
@@ -170,6 +186,8 @@ def run(run):
             has_magic = any(0x10203D <= ord(ch) <= 0x10FFF0 for ch in t)
             if "raised" in o:
                 sig = "c01:raised:%s:%s" % (o["raised"], "placeholder-in-input" if has_magic else o["where"])
+                if has_magic and o["raised"] == "CaseTimeout":
+                    sig = "c01:does-not-return:placeholder-in-input"
                 run.property_failure(sig, "parse(%r, %r) raised %s in %s" % (t[:300], kw, o["raised"], o["where"]), {"text": t, "kw": kw})
                 continue
             if o["pstack"] != 0:
